@@ -51,6 +51,26 @@ def impl_case(case):
     if not documented:
         fail = f'value outside the documented domain accepted: MetaMessage({t!r}, **{kw!r})'
     line_new = 'ok ' + metas.canon_meta(m)[6:] + ' time=' + metas.val_tok(m.time)
+    if fail is None and t in metas.TEXT_TYPES:
+        # the same text in a file whose charset is utf-8 (and utf-16-le): written by hand, read by the library
+        attr = metas.META[t][1][0][0]
+        txt = getattr(m, attr)
+        for cs in ('utf-8', 'utf-16-le'):
+            try:
+                payload = list(txt.encode(cs))
+            except UnicodeError:
+                continue
+            if len(payload) > 5000:
+                continue
+            ev = [0xff, metas.META[t][0]] + metas.vlq(len(payload)) + payload
+            try:
+                m4 = mido.MidiFile(file=io.BytesIO(file_with_event(ev)), charset=cs).tracks[0][0]
+                if getattr(m4, attr) != txt:
+                    fail = f'{t} {txt[:30]!r} encoded in {cs} is read from a {cs} file as {getattr(m4, attr)[:30]!r}'
+                    break
+            except Exception as e:
+                fail = f'reading {t} {txt[:30]!r} from a {cs} file raised {type(e).__name__}: {e}'
+                break
     # bytes
     try:
         bs = m.bytes()
@@ -127,7 +147,7 @@ def gen(ck):
     for key in metas.KEYS:
         add(('key_signature', {'key': key}))
     ck.exhaustive['30 key signatures'] = True
-    for key in ['H', 'c', 'Cm ', '', 'C##', 'Fb', 'B#', 'Dbm', 'G#'] + WRONG:
+    for key in ['H', 'c', 'Cm ', '', 'C##', 'Fb', 'B#', 'Dbm', 'G#', 'F\u266fm', 'B\u266d', 'C\u266f', 'E\u266dm', 'f#m', 'BB', 'Am\x00', ' Am', 'A m'] + WRONG:
         add(('key_signature', {'key': key}))
     seqs = range(65536) if thorough else sorted(set([0, 1, 255, 256, 257, 65534, 65535] + [rng.randrange(65536) for _ in range(2000)]))
     for n in seqs:
@@ -169,7 +189,7 @@ def gen(ck):
                 continue
             txt = ''.join(chr(rng.choice([65, 97, 32, 0xe9, 0xff, 0, 0x7f, 0x80])) for _ in range(ln))
             add((t, {attr: txt}))
-        for v in ['snow☃man', 'café'] + WRONG:
+        for v in ['snow☃man', 'café', '\ufeffLa la', '\xef\xbb\xbfLa la', '\xef\xbb\xbf', 'La\ufeff', '\ufeff'] + WRONG:
             add((t, {attr: v}))
     for ln in lens:
         data = [rng.choice([0, 1, 127, 128, 255, rng.randrange(256)]) for _ in range(ln)]
